@@ -49,6 +49,9 @@ class ParserSessionProp(object):
     def world_kwargs(self, rng, knobs):
         return {}
 
+    def tweak_world(self, rng, wspec, knobs):
+        pass
+
     def generate(self, seed, index, tier, options):
         rng = gen.stream(seed, self.id + ':ops', index)
         knobs = self.knobs(rng, tier, options)
@@ -59,6 +62,7 @@ class ParserSessionProp(object):
             max_len=knobs['max_len'], rich_tokens=self.rich_tokens, heads=heads,
             **self.world_kwargs(rng, knobs))
         wspec['family'] = fam
+        self.tweak_world(rng, wspec, knobs)
         world = session.World(wspec)
         ops = []
         cfg = self.base_cfg(rng, knobs)
